@@ -91,6 +91,10 @@ func (iw *identifierResponseWriter) Flush() {
 // Hijack implements http.Hijacker (WebSocket upgrades pass through this middleware).
 func (iw *identifierResponseWriter) Hijack() (net.Conn, *bufio.ReadWriter, error) {
 	if h, ok := iw.ResponseWriter.(http.Hijacker); ok {
+		// The reverse proxy writes the 101 itself, from this writer's header map,
+		// once it has the connection: no WriteHeader call will put the
+		// identifiers back if an interim response has cleared the map.
+		iw.apply()
 		return h.Hijack()
 	}
 	return nil, nil, http.ErrNotSupported
